@@ -211,6 +211,11 @@ def main():
                 desc = "all tree programs with <=2 tasks x <=2 yields, <=3 tasks (children 1 yield), <=4 tasks x 1 yield; <=2 leaves/yield, 2 kinds, 3 priority assignments"
             fam += [("enum", p) for p in en]
             cov["enumerated_family"] = "%s: %d programs, every one model-checked under all schedules and replayed" % (desc, len(en))
+        if pid == "C03":
+            depths = (20, 60) if tier == "quick" else (60, 100)
+            ch = [plang.chain(d, v) for d in depths for v in ("plain", "list", "batch")]
+            fam += [("chain", p) for p in ch]
+            cov["chain_programs_validated_by_tlc"] = "chains of depth %s (plain / through lists / batch at the bottom): model-checked and their real traces validated" % (depths,)
         if pid == "C08":
             en = plang.enum_overflow()
             fam += [("enum_overflow", p) for p in en]
